@@ -534,7 +534,25 @@ func (g *Gen) GenOp(s *Snap) Op {
 				low = append(low, x)
 			}
 		}
-		if len(low) > 0 && r.Chance(4, 5) {
+		// cdps whose 18-decimal ratio is within a few ulps of the liquidation ratio (the keeper gate's boundary)
+		var edge []CdpRow
+		for _, x := range s.Cdps {
+			tc := cfg.Types[x.T]
+			if s.Price[tc.LiqM].Sign() == 0 {
+				continue
+			}
+			if dr, ok2 := decRatio(x.Coll, tc.CF, syncedDebt(x, g.gf(s, x.T)), cfg.DebtCF, g.price(s, tc.LiqM)); ok2 {
+				if d := new(big.Int).Sub(Mant(dr), Mant(decOf(tc.Liq))); d.CmpAbs(big.NewInt(4)) <= 0 {
+					edge = append(edge, x)
+				}
+			}
+		}
+		if len(edge) > 0 && r.Chance(2, 3) {
+			c = edge[r.Intn(len(edge))]
+			if g.Cnt != nil {
+				g.Cnt.Inc("gen:keeper-liquidation-at-boundary")
+			}
+		} else if len(low) > 0 && r.Chance(4, 5) {
 			c = low[r.Intn(len(low))]
 		} else if r.Chance(2, 3) {
 			return g.blockOp(s)
